@@ -512,19 +512,20 @@ def padval(ctx):
     for fn in ("create_raw_connector", "create_matrix_connector::{closure#0}"):
         p = "vibrato::dictionary::connector::dual_connector::DualConnector::" + fn
         fa = E.fa(p)
-        S = Sym(E, fa)
-        uo = calls_named(fa, "unwrap_or")
-        vals = []
-        for b, t in uo:
-            e = S.operand(t["args"][1])
-            k = find_const_int(fa, t["args"][1])
-            vals.append(k)
+        # the function and the closures written inside it (a gather spelled with map/extend)
+        region = [p] + sorted(f.path for f in crate.fns.values() if f.path.startswith(p + "::{closure"))
+        uo, vals = [], []
+        for q in region:
+            qa = E.fa(q)
+            for b, t in calls_named(qa, "unwrap_or"):
+                uo.append((b, t))
+                vals.append(find_const_int(qa, t["args"][1]))
         ok = len(uo) >= 1 and all(v == U31MAX for v in vals)
         ctx.ob("PADVAL", "A|DualConnector::%s|missing-feature-is-invalid" % fn, ok, fn_loc(crate, p),
                "a template position missing from a row reads as the invalid feature id" if ok else
                "a missing template position reads as %s instead of the invalid feature id (id 0 is "
                "the empty BOS/EOS feature and has costs of its own)" % vals)
-        others = [t for b, t in fa.calls()
+        others = [t for q in region for b, t in E.fa(q).calls()
                   if any(strip_generics(x).endswith(("unwrap_or_default", "unwrap_or_else"))
                          for x in callee_paths(t))]
         ctx.ob("PADVAL", "A|DualConnector::%s|no-defaulted-feature" % fn, not others, fn_loc(crate, p),
@@ -612,10 +613,17 @@ def reserved0(ctx):
            "empty feature id 0")
     # parse_features: unknown features map to INVALID
     p = "vibrato::dictionary::connector::raw_connector::RawConnectorBuilder::parse_features"
-    fa = E.fa(p)
-    uo = calls_named(fa, "unwrap_or")
-    vals = [find_const_int(fa, t["args"][1]) for b, t in uo]
-    ok = len(uo) == 1 and vals == [U31MAX]
+    # the lookup may sit in the function or in a closure of it (map/collect form); every
+    # defaulted lookup there must default to the invalid id, and none may use the type's default
+    vals, others = [], []
+    for q in [p] + sorted(f.path for f in crate.closures_of(p)):
+        qa = E.fa(q)
+        for b, t in calls_named(qa, "unwrap_or"):
+            vals.append(find_const_int(qa, t["args"][1]))
+        others += [t for b, t in qa.calls()
+                   if any(strip_generics(x).endswith(("unwrap_or_default", "unwrap_or_else"))
+                          for x in callee_paths(t))]
+    ok = len(vals) >= 1 and all(v == U31MAX for v in vals) and not others
     ctx.ob("PADVAL", "A|parse_features|unlisted-feature-is-invalid", ok, fn_loc(crate, p),
            "a feature that has no cost line maps to the invalid id (contributes 0)" if ok else
            "features without cost lines map to %s" % vals)
